@@ -19,6 +19,13 @@ Theorem C04_search_resumes_after_candidate : forall caboff cablen foffset plausi
 Proof. exact resume_advances. Qed.
 Print Assumptions C04_search_resumes_after_candidate.
 
+(* ... so the whole search loop (Model/Find.v cab_find = cabd_search + cabd_find with the header parser abstracted) returns for every file,
+   every parser and both salvage settings: one unit of fuel per byte of the file is never exhausted *)
+From MSP Require Import Model.Find Proofs.FindComplete.
+Theorem C04_search_loop_returns : forall bytes parse salvage, exists res, cab_find bytes parse salvage (S (length bytes)) 0 nil = Some res.
+Proof. exact find_returns. Qed.
+Print Assumptions C04_search_loop_returns.
+
 (* chmd_fast_find's chunk walk ends after at most num_chunks visits for EVERY link structure *)
 Theorem C04_chm_walk_bounded : forall next hit last num n,
   match pmgl_walk (S (N.to_nat num)) next hit last num n 0 with
